@@ -141,7 +141,7 @@ func Supervise(p *Prop, o Options) int {
 	dead := make([]*DeadChild, total)
 	raceReports := map[string]*Violation{}
 	var rmu sync.Mutex
-	var raceBlocks int64
+	var raceBlocks, harnessRaces int64
 
 	sem := make(chan struct{}, par)
 	var wg sync.WaitGroup
@@ -223,7 +223,12 @@ func Supervise(p *Prop, o Options) int {
 					rmu.Lock()
 					raceBlocks += int64(len(blocks))
 					for _, blk := range blocks {
-						sig := "race/" + raceSig(blk)
+						rs := raceSig(blk)
+						if strings.HasPrefix(rs, "harness-only:") {
+							harnessRaces++
+							continue
+						}
+						sig := "race/" + rs
 						if v, ok := raceReports[sig]; ok {
 							v.Count++
 						} else {
@@ -301,6 +306,9 @@ func Supervise(p *Prop, o Options) int {
 	if nr > 0 {
 		merged.Counters["race_report_blocks"] = raceBlocks
 		merged.Counters["race_report_distinct"] = int64(len(raceReports))
+		if harnessRaces > 0 {
+			inconclusive = append(inconclusive, fmt.Sprintf("%d data-race reports involve only harness code (a defect of the monitor, not of go-ucan)", harnessRaces))
+		}
 		if p.RaceIsViolation {
 			for s, v := range raceReports {
 				viols[s] = v
@@ -537,18 +545,33 @@ func splitRaceBlocks(s string) []string {
 	return out
 }
 
-var raceFrame = regexp.MustCompile(`(?m)^  ([^\s(]+)\(`)
+var raceFrame = regexp.MustCompile(`(?m)^  (\S+)\(\)\s*$`)
 
-// raceSig de-duplicates a race report by the pair of innermost go-ucan frames of the
-// two accesses (line numbers stripped).
+// raceSig attributes a race report: each of the two access stacks is walked from the
+// racing access downwards, skipping standard-library frames; the first frame that belongs
+// to go-ucan or to the harness decides whose access it is. Reports in which neither access
+// is go-ucan's are the harness's own races ("harness:" prefix, never a violation of the
+// code under observation). The signature is the pair of attributed frames, line numbers
+// stripped.
 func raceSig(block string) string {
-	parts := regexp.MustCompile(`(?m)^(?:Previous |)(?:[Rr]ead|[Ww]rite) at .*$`).Split(block, -1)
+	parts := regexp.MustCompile(`(?m)^(?:Previous |)(?:[Rr]ead|[Ww]rite|[Aa]tomic [a-z]+) at .*$`).Split(block, -1)
 	var frames []string
+	ucan := false
 	for _, p := range parts[1:] {
+		// only the access stack: stop at the next section header
+		if i := strings.Index(p, "\nGoroutine "); i >= 0 {
+			p = p[:i]
+		}
 		f := "?"
 		for _, m := range raceFrame.FindAllStringSubmatch(p, -1) {
-			if strings.HasPrefix(m[1], repoMod) {
-				f = strings.TrimPrefix(m[1], repoMod)
+			fn := m[1]
+			if strings.HasPrefix(fn, repoMod) {
+				f = strings.TrimPrefix(fn, repoMod)
+				ucan = true
+				break
+			}
+			if strings.HasPrefix(fn, "verifharness/") || strings.HasPrefix(fn, "main.") {
+				f = "harness:" + fn
 				break
 			}
 		}
@@ -558,5 +581,9 @@ func raceSig(block string) string {
 		}
 	}
 	sort.Strings(frames)
-	return strings.Join(frames, "~")
+	sig := strings.Join(frames, "~")
+	if !ucan {
+		return "harness-only:" + sig
+	}
+	return sig
 }
